@@ -26,6 +26,8 @@ func main() {
 		switch *layer {
 		case "tracer":
 			driveTracer(*seed, *n, *size, em)
+		case "frame":
+			driveFrame(*seed, *n, *size, em)
 		case "cancun":
 			driveCancun(*seed, *n, *size, em)
 		case "precompile":
